@@ -15,23 +15,37 @@ theorem sendTo_mem (res : Nat → List Sent) (ws : List Nat) (x : Sent) (w : Nat
 theorem sendTo_nil (res : Nat → List Sent) (x : Sent) : sendTo res [] x = res := by
   funext w; simp [sendTo]
 
-/-- invariant of the repaired model -/
-structure Good (s : State) : Prop where
+/-- invariant of the repaired model; `ex` is a request that is just being handled (created, its event taken
+off the queue, not yet answered or registered): the only one allowed to be neither -/
+structure GoodE (ex : Option Nat) (s : State) : Prop where
   live_nodup : s.live.Nodup
   live_mem : ∀ h c, s.ctrl h = some c → h ∈ s.live
   w_nodup : ∀ h c, s.ctrl h = some c → c.waiters.Nodup
   w_disj : ∀ h h' c c' w, s.ctrl h = some c → s.ctrl h' = some c' → w ∈ c.waiters → w ∈ c'.waiters → h = h'
   w_fresh : s.stopped = false → ∀ h c w, s.ctrl h = some c → w ∈ c.waiters → w < s.nextW ∧ s.results w = []
-  answered : ∀ w, w < s.nextW → (s.stopped = true ∨ ∀ h c, s.ctrl h = some c → w ∉ c.waiters) →
-    (s.results w).length = 1
+  answered : ∀ w, w < s.nextW → some w ≠ ex → s.snap w = none →
+    (s.stopped = true ∨ ∀ h c, s.ctrl h = some c → w ∉ c.waiters) → (s.results w).length = 1
   future : ∀ w, s.nextW ≤ w → s.results w = []
   gen_lt : ∀ h c, s.ctrl h = some c → c.gen < s.nextGen
   notice_lt : ∀ h g, (h, g) ∈ s.notices → g < s.nextGen
   notice_complete : ∀ h g c, (h, g) ∈ s.notices → s.ctrl h = some c → c.gen = g → c.complete = true
   complete_notice : s.stopped = false → ∀ h c, s.ctrl h = some c → c.complete = true → c.waiters ≠ [] →
     (h, c.gen) ∈ s.notices
-  complete_cached : ∀ h c, s.ctrl h = some c → c.complete = true → s.cached h = true
-  ok_cached : ∀ w x, x ∈ s.results w → x.res = .ok → x.cachedThen = true
+  complete_cached : s.pure = true → ∀ h c, s.ctrl h = some c → c.complete = true → s.cached h = true
+  ok_cached : s.pure = true → ∀ w x, x ∈ s.results w → x.res = .ok → x.cachedThen = true
+  snap_fresh : ∀ w x, s.snap w = some x → w < s.nextW ∧ s.results w = [] ∧ ∀ h c, s.ctrl h = some c → w ∉ c.waiters
+  snap_future : ∀ w, s.nextW ≤ w → s.snap w = none
+  snap_pure : s.pure = true → ∀ w, s.snap w = none
+  w_lt : ∀ h c w, s.ctrl h = some c → w ∈ c.waiters → w < s.nextW
+
+abbrev Good (s : State) : Prop := GoodE none s
+
+/-- request `w` is in the hands of the event that handles it -/
+structure FreshW (s : State) (w : Nat) : Prop where
+  lt : w < s.nextW
+  res : s.results w = []
+  snap : s.snap w = none
+  untracked : ∀ h c, s.ctrl h = some c → w ∉ c.waiters
 
 theorem good_init : Good init := by
   constructor <;> simp [init]
@@ -43,104 +57,115 @@ theorem sendTo_single (res : Nat → List Sent) (w : Nat) (x : Sent) (w' : Nat) 
   · have : ¬ w = w' := fun h => e h.symm
     simp [sendTo, e, this]
 
--- ------------------------------------------------------------------ request
-
-theorem good_request_stopped (s : State) (h : Hash) (g : Good s) (hs : s.stopped = true) :
-    Good (request s h) := by
-  have hf := g.future s.nextW (Nat.le_refl _)
-  simp only [request, hs, if_true]
-  constructor <;> dsimp only
-  · exact g.live_nodup
-  · exact g.live_mem
-  · exact g.w_nodup
-  · exact g.w_disj
-  · intro h0; simp [hs] at h0
-  · intro w hw _
-    simp only [sendTo_single]
-    by_cases e : w = s.nextW
-    · simp [e, hf]
-    · simp only [e, if_false]; exact g.answered w (by omega) (Or.inl hs)
-  · intro w hw
-    simp only [sendTo_single]
-    have e : ¬ w = s.nextW := by omega
-    simp only [e, if_false]; exact g.future w (by omega)
-  · exact g.gen_lt
-  · exact g.notice_lt
-  · exact g.notice_complete
-  · intro h0; simp [hs] at h0
-  · exact g.complete_cached
-  · intro w x hx hok
-    simp only [sendTo_single] at hx
-    by_cases e : w = s.nextW
-    · simp [e, hf] at hx; subst hx; simp at hok
-    · simp only [e, if_false] at hx; exact g.ok_cached w x hx hok
-
 theorem setCtrl_ctrl (s : State) (h : Hash) (oc : Option Ctrl) (k : Hash) :
     (setCtrl s h oc).ctrl k = if k = h then oc else s.ctrl k := rfl
 
 theorem setCached_cached (s : State) (h : Hash) (b : Bool) (k : Hash) :
     (setCached s h b).cached k = if k = h then b else s.cached k := rfl
 
-theorem good_request_complete (s : State) (h : Hash) (c : Ctrl) (g : Good s) (hs : s.stopped = false)
-    (hc : s.ctrl h = some c) (hcc : c.complete = true) : Good (request s h) := by
-  have hf := g.future s.nextW (Nat.le_refl _)
-  have hca := g.complete_cached h c hc hcc
-  simp only [request, hs, hc, hcc, if_true, Bool.false_eq_true, if_false]
-  obtain ⟨g1, g2, g3, g4, g5, g6, g7, g8, g9, g10, g11, g12, g13⟩ := g
-  constructor <;> dsimp only <;> (try simp only [sendTo_single]) <;> grind
+theorem goodE_setDl {ex : Option Nat} (s : State) (h : Hash) (b : Bool) (g : GoodE ex s) : GoodE ex (setDl s h b) := by
+  obtain ⟨g1, g2, g3, g4, g5, g6, g7, g8, g9, g10, g11, g12, g13, g14, g15, g16, g17⟩ := g
+  constructor <;> (try dsimp only [setDl]) <;> assumption
 
-theorem good_request_join (s : State) (h : Hash) (c : Ctrl) (g : Good s) (hs : s.stopped = false)
-    (hc : s.ctrl h = some c) (hcc : c.complete = false) : Good (request s h) := by
-  have hf := g.future s.nextW (Nat.le_refl _)
-  simp only [request, hs, hc, hcc, Bool.false_eq_true, if_false]
-  obtain ⟨g1, g2, g3, g4, g5, g6, g7, g8, g9, g10, g11, g12, g13⟩ := g
-  constructor <;> (try simp only [setCtrl_ctrl]) <;> (try dsimp only [setCtrl]) <;> grind
+theorem freshW_setDl (s : State) (h : Hash) (b : Bool) (w : Nat) (f : FreshW s w) : FreshW (setDl s h b) w := by
+  obtain ⟨f1, f2, f3, f4⟩ := f
+  exact ⟨f1, f2, f3, f4⟩
 
-theorem good_request_cached (s : State) (h : Hash) (g : Good s) (hs : s.stopped = false)
-    (hc : s.ctrl h = none) (hca : s.cached h = true) : Good (request s h) := by
-  have hf := g.future s.nextW (Nat.le_refl _)
-  simp only [request, hs, hc, hca, if_true, Bool.false_eq_true, if_false]
-  obtain ⟨g1, g2, g3, g4, g5, g6, g7, g8, g9, g10, g11, g12, g13⟩ := g
-  constructor <;> (try simp only [setCtrl_ctrl]) <;> (try dsimp only [setCtrl]) <;>
-    (try simp only [sendTo_single]) <;> grind
+-- ------------------------------------------------------------------ handling one request
 
-theorem good_request_new (s : State) (h : Hash) (g : Good s) (hs : s.stopped = false)
-    (hc : s.ctrl h = none) (hca : s.cached h = false) : Good (request s h) := by
-  have hf := g.future s.nextW (Nat.le_refl _)
-  simp only [request, hs, hc, hca, Bool.false_eq_true, if_false]
-  obtain ⟨g1, g2, g3, g4, g5, g6, g7, g8, g9, g10, g11, g12, g13⟩ := g
-  constructor <;> (try simp only [setCtrl_ctrl]) <;> (try dsimp only [setCtrl])
+/-- the request is answered at once -/
+theorem good_answer (s : State) (w : Nat) (x : Sent) (g : GoodE (some w) s) (f : FreshW s w)
+    (hx : s.pure = true → x.res = .ok → x.cachedThen = true) :
+    Good { s with results := sendTo s.results [w] x } := by
+  obtain ⟨g1, g2, g3, g4, g5, g6, g7, g8, g9, g10, g11, g12, g13, g14, g15, g16, g17⟩ := g
+  obtain ⟨f1, f2, f3, f4⟩ := f
+  constructor <;> dsimp only <;> (try simp only [sendTo_single])
   case answered =>
-    intro w hw hor
-    rcases hor with hor | hor
-    · simp [hs] at hor
-    · by_cases e : w = s.nextW
-      · have := hor h ⟨s.nextGen, false, [s.nextW]⟩ (by simp)
-        simp [e] at this
-      · apply g6 w (by omega)
-        right
-        intro h0 c0 hc0
-        have e0 : ¬ h0 = h := by intro e0; subst e0; simp [hc] at hc0
-        exact hor h0 c0 (by simp [e0, hc0])
+    intro w' hw' _ hsn hor
+    by_cases e : w' = w
+    · subst e; simp [f2]
+    · simp only [e, if_false]; exact g6 w' hw' (by simp; exact e) hsn hor
+  case ok_cached =>
+    intro hp w' x' hx' hok
+    by_cases e : w' = w
+    · subst e; simp [f2] at hx'; subst hx'; exact hx hp hok
+    · simp only [e, if_false] at hx'; exact g13 hp w' x' hx' hok
   all_goals grind
 
-theorem good_request (s : State) (h : Hash) (g : Good s) : Good (request s h) := by
-  cases hs : s.stopped
-  · cases hc : s.ctrl h with
-    | none =>
-      cases hca : s.cached h
-      · exact good_request_new s h g hs hc hca
-      · exact good_request_cached s h g hs hc hca
-    | some c =>
-      cases hcc : c.complete
-      · exact good_request_join s h c g hs hc hcc
-      · exact good_request_complete s h c g hs hc hcc
-  · exact good_request_stopped s h g hs
+/-- the request joins the waiters of an incomplete control -/
+theorem good_join (s : State) (w : Nat) (h : Hash) (c : Ctrl) (g : GoodE (some w) s) (f : FreshW s w)
+    (hs : s.stopped = false) (hc : s.ctrl h = some c) (hcc : c.complete = false) :
+    Good (setCtrl s h (some { c with waiters := c.waiters ++ [w] })) := by
+  obtain ⟨g1, g2, g3, g4, g5, g6, g7, g8, g9, g10, g11, g12, g13, g14, g15, g16, g17⟩ := g
+  obtain ⟨f1, f2, f3, f4⟩ := f
+  constructor <;> (try simp only [setCtrl_ctrl]) <;> (try dsimp only [setCtrl])
+  case answered =>
+    intro w' hw' _ hsn hor
+    rcases hor with hor | hor
+    · simp [hs] at hor
+    · by_cases e : w' = w
+      · have := hor h ⟨c.gen, c.complete, c.waiters ++ [w]⟩ (by simp)
+        simp [e] at this
+      · apply g6 w' hw' (by simp; exact e) hsn
+        right
+        intro h0 c0 hc0
+        by_cases e0 : h0 = h
+        · have hc0' : s.ctrl h = some c0 := e0 ▸ hc0
+          rw [hc] at hc0'; injection hc0' with e1
+          have := hor h ⟨c.gen, c.complete, c.waiters ++ [w]⟩ (by simp)
+          simp at this; rw [← e1]; exact this.1
+        · exact hor h0 c0 (by simp [e0, hc0])
+  all_goals grind
+
+/-- `addTorrent` for the request over a torrent object of completeness `sc` -/
+theorem good_addFor (s : State) (w : Nat) (h : Hash) (sc : Bool) (g : GoodE (some w) s) (f : FreshW s w)
+    (hs : s.stopped = false) (hc : s.ctrl h = none) (hsc : s.pure = true → sc = true → s.cached h = true) :
+    Good (addFor s h w sc) := by
+  obtain ⟨g1, g2, g3, g4, g5, g6, g7, g8, g9, g10, g11, g12, g13, g14, g15, g16, g17⟩ := g
+  obtain ⟨f1, f2, f3, f4⟩ := f
+  unfold addFor
+  cases sc
+  · simp only [Bool.false_eq_true, if_false]
+    constructor <;> (try simp only [setCtrl_ctrl]) <;> (try dsimp only [setCtrl])
+    case answered =>
+      intro w' hw' _ hsn hor
+      rcases hor with hor | hor
+      · simp [hs] at hor
+      · by_cases e : w' = w
+        · have := hor h ⟨s.nextGen, false, [w]⟩ (by simp)
+          simp [e] at this
+        · apply g6 w' hw' (by simp; exact e) hsn
+          right
+          intro h0 c0 hc0
+          have e0 : ¬ h0 = h := by intro e0; subst e0; simp [hc] at hc0
+          exact hor h0 c0 (by simp [e0, hc0])
+    all_goals grind
+  · simp only [if_true]
+    have hca := hsc
+    constructor <;> (try simp only [setCtrl_ctrl]) <;> (try dsimp only [setCtrl]) <;> (try simp only [sendTo_single])
+    case answered =>
+      intro w' hw' _ hsn hor
+      by_cases e : w' = w
+      · subst e; simp [f2]
+      · simp only [e, if_false]
+        apply g6 w' hw' (by simp; exact e) hsn
+        rcases hor with hor | hor
+        · simp [hs] at hor
+        · right
+          intro h0 c0 hc0
+          have e0 : ¬ h0 = h := by intro e0; subst e0; simp [hc] at hc0
+          exact hor h0 c0 (by simp [e0, hc0])
+    case ok_cached =>
+      intro hp w' x' hx' hok
+      by_cases e : w' = w
+      · subst e; simp [f2] at hx'; subst hx'; exact hca hp rfl
+      · simp only [e, if_false] at hx'; exact g13 hp w' x' hx' hok
+    all_goals grind
 
 theorem good_requestMissing (s : State) (g : Good s) : Good (requestMissing s) := by
   have hf := g.future s.nextW (Nat.le_refl _)
   simp only [requestMissing]
-  obtain ⟨g1, g2, g3, g4, g5, g6, g7, g8, g9, g10, g11, g12, g13⟩ := g
+  obtain ⟨g1, g2, g3, g4, g5, g6, g7, g8, g9, g10, g11, g12, g13, g14, g15, g16, g17⟩ := g
   constructor <;> dsimp only <;> (try simp only [sendTo_single]) <;> grind
 
 -- ------------------------------------------------------------------ finish
@@ -150,14 +175,18 @@ theorem good_finish (s : State) (h : Hash) (g : Good s) : Good (finish s h) := b
   cases hc : s.ctrl h with
   | none => exact g
   | some c =>
-    cases hcc : c.complete
-    · obtain ⟨g1, g2, g3, g4, g5, g6, g7, g8, g9, g10, g11, g12, g13⟩ := g
-      cases hs : s.stopped
-      · simp only [hs, hcc, Bool.false_eq_true, if_false]
-        constructor <;> (try simp only [setCtrl_ctrl, setCached_cached]) <;> (try dsimp only [setCtrl, setCached]) <;> grind
-      · simp only [hs, hcc, Bool.false_eq_true, if_false, if_true]
-        constructor <;> (try simp only [setCtrl_ctrl, setCached_cached]) <;> (try dsimp only [setCtrl, setCached]) <;> grind
-    · simp only [hcc, if_true]; exact g
+    dsimp only
+    by_cases hcb : (c.complete || !s.dl h) = true
+    · rw [if_pos hcb]; exact g
+    · rw [if_neg hcb]
+      have hcc : c.complete = false := by
+        simp only [Bool.or_eq_true, not_or, Bool.not_eq_true] at hcb; exact hcb.1
+      obtain ⟨g1, g2, g3, g4, g5, g6, g7, g8, g9, g10, g11, g12, g13, g14, g15, g16, g17⟩ := g
+      rcases Bool.eq_false_or_eq_true s.stopped with hs | hs
+      · rw [if_pos hs]
+        constructor <;> (try simp only [setCtrl_ctrl, setCached_cached]) <;> (try dsimp only [setCtrl, setCached, setDl]) <;> grind
+      · rw [if_neg (by simp [hs])]
+        constructor <;> (try simp only [setCtrl_ctrl, setCached_cached]) <;> (try dsimp only [setCtrl, setCached, setDl]) <;> grind
 
 -- ------------------------------------------------------------------ notice
 
@@ -168,7 +197,7 @@ theorem mem_erase_of_mem_ne {a b : Hash × Nat} {l : List (Hash × Nat)} (h : a 
 theorem good_erase (s : State) (h : Hash) (gn : Nat) (g : Good s)
     (hok : s.stopped = false → ∀ c, s.ctrl h = some c → c.gen = gn → c.complete = true → c.waiters = []) :
     Good { s with notices := s.notices.erase (h, gn) } := by
-  obtain ⟨g1, g2, g3, g4, g5, g6, g7, g8, g9, g10, g11, g12, g13⟩ := g
+  obtain ⟨g1, g2, g3, g4, g5, g6, g7, g8, g9, g10, g11, g12, g13, g14, g15, g16, g17⟩ := g
   constructor <;> dsimp only
   case notice_lt => intro h' g' hm; exact g9 h' g' (List.mem_of_mem_erase hm)
   case notice_complete => intro h' g' c hm; exact g10 h' g' c (List.mem_of_mem_erase hm)
@@ -187,9 +216,14 @@ theorem good_notice_apply (s : State) (h : Hash) (c : Ctrl) (g : Good s) (hs : s
     Good (setCtrl { s with notices := s.notices.erase (h, c.gen),
                            results := sendTo s.results c.waiters ⟨.ok, s.cached h⟩ } h (some { c with waiters := [] })) := by
   have hcc := g.notice_complete h c.gen c hm hc rfl
-  have hca := g.complete_cached h c hc hcc
+  have hca := fun hp => g.complete_cached hp h c hc hcc
   have hnd := g.w_nodup h c hc
-  obtain ⟨g1, g2, g3, g4, g5, g6, g7, g8, g9, g10, g11, g12, g13⟩ := g
+  obtain ⟨g1, g2, g3, g4, g5, g6, g7, g8, g9, g10, g11, g12, g13, g14, g15, g16, g17⟩ := g
+  have hsn : ∀ w, w ∈ c.waiters → s.snap w = none := by
+    intro w hw
+    cases hx : s.snap w with
+    | none => rfl
+    | some x => exact absurd hw ((g14 w x hx).2.2 h c hc)
   constructor <;> (try simp only [setCtrl_ctrl]) <;> (try dsimp only [setCtrl])
   case w_fresh =>
     intro _ h' c' w hc' hw
@@ -200,13 +234,13 @@ theorem good_notice_apply (s : State) (h : Hash) (c : Ctrl) (g : Good s) (hs : s
       rw [sendTo_not_mem _ _ _ _ hnot]
       exact g5 hs h' c' w hc' hw
   case answered =>
-    intro w hw hor
+    intro w hw hne hsnw hor
     rcases hor with hor | hor
     · simp [hs] at hor
     · by_cases hin : w ∈ c.waiters
       · rw [sendTo_mem _ _ _ _ hnd hin, (g5 hs h c w hc hin).2]; rfl
       · rw [sendTo_not_mem _ _ _ _ hin]
-        apply g6 w hw
+        apply g6 w hw hne hsnw
         right
         intro h0 c0 hc0
         by_cases e0 : h0 = h
@@ -231,13 +265,22 @@ theorem good_notice_apply (s : State) (h : Hash) (c : Ctrl) (g : Good s) (hs : s
       apply mem_erase_of_mem_ne (g11 hs h' c' hc' hcc' hw)
       intro e2; injection e2 with e3 _; exact e e3
   case ok_cached =>
-    intro w x hx hok
+    intro hp w x hx hok
     by_cases hin : w ∈ c.waiters
     · rw [sendTo_mem _ _ _ _ hnd hin] at hx
       rcases List.mem_append.mp hx with hx | hx
-      · exact g13 w x hx hok
-      · simp at hx; subst hx; exact hca
-    · rw [sendTo_not_mem _ _ _ _ hin] at hx; exact g13 w x hx hok
+      · exact g13 hp w x hx hok
+      · simp at hx; subst hx; exact hca hp
+    · rw [sendTo_not_mem _ _ _ _ hin] at hx; exact g13 hp w x hx hok
+  case snap_fresh =>
+    intro w x hx
+    obtain ⟨q1, q2, q3⟩ := g14 w x hx
+    have hnot : w ∉ c.waiters := q3 h c hc
+    refine ⟨q1, by rw [sendTo_not_mem _ _ _ _ hnot]; exact q2, ?_⟩
+    intro h0 c0 hc0
+    by_cases e0 : h0 = h
+    · simp [e0] at hc0; subst hc0; simp
+    · simp only [e0, if_false] at hc0; exact q3 h0 c0 hc0
   all_goals grind
 
 theorem good_notice (s : State) (h : Hash) (gn : Nat) (g : Good s) : Good (notice true s h gn) := by
@@ -269,18 +312,20 @@ theorem good_notice (s : State) (h : Hash) (gn : Nat) (g : Good s) : Good (notic
 
 -- ------------------------------------------------------------------ removeTorrent (timeout, rm)
 
-theorem good_remove (s : State) (h : Hash) (c : Ctrl) (r : Res) (ca : Bool) (g : Good s) (hs : s.stopped = false)
-    (hc : s.ctrl h = some c) (hr : r = .ok → ca = true) (del : Bool) (hdel : c.complete = false → del = true) :
-    Good (setCtrl (let s' := { s with results := sendTo s.results c.waiters ⟨r, ca⟩ }
-                   if del then setCached s' h false else s') h none) := by
+theorem good_remove (ex : Option Nat) (s : State) (h : Hash) (c : Ctrl) (r : Res) (ca : Bool) (g : GoodE ex s)
+    (hs : s.stopped = false)
+    (hc : s.ctrl h = some c) (hr : s.pure = true → r = .ok → ca = true) (del : Bool) (hdel : c.complete = false → del = true) :
+    GoodE ex (setCtrl (let s' := { s with results := sendTo s.results c.waiters ⟨r, ca⟩ }
+                       if del then setDl (setCached s' h false) h false else s') h none) := by
   have hnd := g.w_nodup h c hc
-  obtain ⟨g1, g2, g3, g4, g5, g6, g7, g8, g9, g10, g11, g12, g13⟩ := g
+  obtain ⟨g1, g2, g3, g4, g5, g6, g7, g8, g9, g10, g11, g12, g13, g14, g15, g16, g17⟩ := g
   have key : ∀ (s2 : State), s2.ctrl = s.ctrl → s2.live = s.live → s2.notices = s.notices → s2.stopped = s.stopped →
       s2.nextGen = s.nextGen → s2.nextW = s.nextW → s2.results = sendTo s.results c.waiters ⟨r, ca⟩ →
-      (∀ k, k ≠ h → s2.cached k = s.cached k) → Good (setCtrl s2 h none) := by
-    intro s2 e1 e2 e3 e4 e5 e6 e7 e8
+      s2.snap = s.snap → s2.pure = s.pure →
+      (∀ k, k ≠ h → s2.cached k = s.cached k) → GoodE ex (setCtrl s2 h none) := by
+    intro s2 e1 e2 e3 e4 e5 e6 e7 e9 e10 e8
     constructor <;> (try simp only [setCtrl_ctrl]) <;> (try dsimp only [setCtrl]) <;>
-      (try simp only [e1, e2, e3, e4, e5, e6, e7])
+      (try simp only [e1, e2, e3, e4, e5, e6, e7, e9, e10])
     case w_fresh =>
       intro _ h' c' w hc' hw
       by_cases e : h' = h
@@ -290,13 +335,13 @@ theorem good_remove (s : State) (h : Hash) (c : Ctrl) (r : Res) (ca : Bool) (g :
         rw [sendTo_not_mem _ _ _ _ hnot]
         exact g5 hs h' c' w hc' hw
     case answered =>
-      intro w hw hor
+      intro w hw hne hsn hor
       rcases hor with hor | hor
       · simp [hs] at hor
       · by_cases hin : w ∈ c.waiters
         · rw [sendTo_mem _ _ _ _ hnd hin, (g5 hs h c w hc hin).2]; rfl
         · rw [sendTo_not_mem _ _ _ _ hin]
-          apply g6 w hw
+          apply g6 w hw hne hsn
           right
           intro h0 c0 hc0
           by_cases e0 : h0 = h
@@ -307,27 +352,36 @@ theorem good_remove (s : State) (h : Hash) (c : Ctrl) (r : Res) (ca : Bool) (g :
       have hnot : w ∉ c.waiters := fun hin => by have := (g5 hs h c w hc hin).1; omega
       rw [sendTo_not_mem _ _ _ _ hnot]; exact g7 w hw
     case complete_cached =>
-      intro h' c' hc' hcc'
+      intro hp h' c' hc' hcc'
       by_cases e : h' = h
       · simp [e] at hc'
-      · simp only [e, if_false] at hc'; rw [e8 h' e]; exact g12 h' c' hc' hcc'
+      · simp only [e, if_false] at hc'; rw [e8 h' e]; exact g12 hp h' c' hc' hcc'
     case ok_cached =>
-      intro w x hx hok
+      intro hp w x hx hok
       by_cases hin : w ∈ c.waiters
       · rw [sendTo_mem _ _ _ _ hnd hin] at hx
         rcases List.mem_append.mp hx with hx | hx
-        · exact g13 w x hx hok
-        · simp at hx; subst hx; exact hr hok
-      · rw [sendTo_not_mem _ _ _ _ hin] at hx; exact g13 w x hx hok
+        · exact g13 hp w x hx hok
+        · simp at hx; subst hx; exact hr hp hok
+      · rw [sendTo_not_mem _ _ _ _ hin] at hx; exact g13 hp w x hx hok
+    case snap_fresh =>
+      intro w x hx
+      obtain ⟨q1, q2, q3⟩ := g14 w x hx
+      have hnot : w ∉ c.waiters := q3 h c hc
+      refine ⟨q1, by rw [sendTo_not_mem _ _ _ _ hnot]; exact q2, ?_⟩
+      intro h0 c0 hc0
+      by_cases e0 : h0 = h
+      · simp [e0] at hc0
+      · simp only [e0, if_false] at hc0; exact q3 h0 c0 hc0
     all_goals grind
   cases del
-  · exact key _ rfl rfl rfl rfl rfl rfl rfl (fun _ _ => rfl)
-  · exact key _ rfl rfl rfl rfl rfl rfl rfl (fun k hk => by simp [setCached, hk])
+  · exact key _ rfl rfl rfl rfl rfl rfl rfl rfl rfl (fun _ _ => rfl)
+  · exact key _ rfl rfl rfl rfl rfl rfl rfl rfl rfl (fun k hk => by simp [setCached, setDl, hk])
 
 theorem removeTorrent_eq (s : State) (h : Hash) (c : Ctrl) (r : Res) (ca : Bool) :
     removeTorrent true s h c r ca =
       setCtrl (let s' := { s with results := sendTo s.results c.waiters ⟨r, ca⟩ }
-               if !c.complete then setCached s' h false else s') h none := by
+               if !c.complete then setDl (setCached s' h false) h false else s') h none := by
   unfold removeTorrent
   cases c.complete <;> simp
 
@@ -341,21 +395,21 @@ theorem good_timeout (s : State) (h : Hash) (g : Good s) : Good (timeout true s 
     | some c =>
       dsimp only
       rw [removeTorrent_eq]
-      apply good_remove s h c _ _ g hs hc
-      · intro hr
+      apply good_remove none s h c _ _ g hs hc
+      · intro hp hr
         cases hcc : c.complete
         · simp [hcc] at hr
-        · simp [g.complete_cached h c hc hcc]
+        · simp [g.complete_cached hp h c hc hcc]
       · intro hcc; simp [hcc]
 
 theorem good_setCached_false (s : State) (h : Hash) (g : Good s) (hc : s.ctrl h = none) :
     Good (setCached s h false) := by
-  obtain ⟨g1, g2, g3, g4, g5, g6, g7, g8, g9, g10, g11, g12, g13⟩ := g
+  obtain ⟨g1, g2, g3, g4, g5, g6, g7, g8, g9, g10, g11, g12, g13, g14, g15, g16, g17⟩ := g
   constructor <;> (try simp only [setCached_cached]) <;> (try dsimp only [setCached])
   case complete_cached =>
-    intro h' c' hc' hcc'
+    intro hp h' c' hc' hcc'
     have e : ¬ h' = h := by intro e; subst e; simp [hc] at hc'
-    simp only [e, if_false]; exact g12 h' c' hc' hcc'
+    simp only [e, if_false]; exact g12 hp h' c' hc' hcc'
   all_goals assumption
 
 theorem good_rm (s : State) (h : Hash) (g : Good s) : Good (rm true s h) := by
@@ -364,13 +418,14 @@ theorem good_rm (s : State) (h : Hash) (g : Good s) : Good (rm true s h) := by
   · simp only [hs, if_true]; exact g
   · simp only [hs, Bool.false_eq_true, if_false]
     cases hc : s.ctrl h with
-    | none => exact good_setCached_false s h g hc
+    | none => exact goodE_setDl _ h false (good_setCached_false s h g hc)
     | some c =>
       dsimp only
       rw [removeTorrent_eq]
+      apply goodE_setDl
       apply good_setCached_false
-      · apply good_remove s h c _ _ g hs hc
-        · intro hr; cases hr
+      · apply good_remove none s h c _ _ g hs hc
+        · intro _ hr; cases hr
         · intro hcc; simp [hcc]
       · simp [setCtrl]
 
@@ -450,12 +505,12 @@ theorem good_shutdown (s : State) (g : Good s) : Good (shutdown s) := by
   · simp only [hs, Bool.false_eq_true, if_false]
     have hres : ∀ w, (s.live.foldl (fun res h => sendTo res (waitersOf s h) ⟨.stopped, s.cached h⟩) s.results) w =
         stopAll s s.live s.results w := fun _ => rfl
-    obtain ⟨g1, g2, g3, g4, g5, g6, g7, g8, g9, g10, g11, g12, g13⟩ := g
+    obtain ⟨g1, g2, g3, g4, g5, g6, g7, g8, g9, g10, g11, g12, g13, g14, g15, g16, g17⟩ := g
     constructor <;> dsimp only
     case w_fresh => intro h0; cases h0
     case complete_notice => intro h0; cases h0
     case answered =>
-      intro w hw _
+      intro w hw hne hsn _
       rw [hres]
       by_cases hex : ∃ h c, s.ctrl h = some c ∧ w ∈ c.waiters
       · obtain ⟨h0, c0, hc0, hw0⟩ := hex
@@ -468,7 +523,7 @@ theorem good_shutdown (s : State) (g : Good s) : Good (shutdown s) := by
       · rw [stopAll_untouched s w s.live s.results (fun h _ hin => by
             obtain ⟨c, hc, hwc⟩ := mem_waitersOf s h w hin
             exact hex ⟨h, c, hc, hwc⟩)]
-        exact g6 w hw (Or.inr (fun h c hc hwc => hex ⟨h, c, hc, hwc⟩))
+        exact g6 w hw hne hsn (Or.inr (fun h c hc hwc => hex ⟨h, c, hc, hwc⟩))
     case future =>
       intro w hw
       rw [hres, stopAll_untouched s w s.live s.results (fun h _ hin => by
@@ -477,18 +532,217 @@ theorem good_shutdown (s : State) (g : Good s) : Good (shutdown s) := by
         omega)]
       exact g7 w hw
     case ok_cached =>
-      intro w x hx hok
+      intro hp w x hx hok
       rw [hres] at hx
       rcases stopAll_mem s w x s.live s.results hx with hx | hx
-      · exact g13 w x hx hok
+      · exact g13 hp w x hx hok
       · rw [hx] at hok; cases hok
+    case snap_fresh =>
+      intro w x hx
+      obtain ⟨q1, q2, q3⟩ := g14 w x hx
+      refine ⟨q1, ?_, q3⟩
+      rw [hres, stopAll_untouched s w s.live s.results (fun h _ hin => by
+        obtain ⟨c, hc, hwc⟩ := mem_waitersOf s h w hin
+        exact q3 h c hc hwc)]
+      exact q2
     all_goals assumption
+
+-- ------------------------------------------------------------------ requests
+
+/-- after the request number was handed out, the new request is the one in flight -/
+theorem goodE_bump (s : State) (g : Good s) :
+    GoodE (some s.nextW) { s with nextW := s.nextW + 1 } ∧ FreshW { s with nextW := s.nextW + 1 } s.nextW := by
+  obtain ⟨g1, g2, g3, g4, g5, g6, g7, g8, g9, g10, g11, g12, g13, g14, g15, g16, g17⟩ := g
+  refine ⟨?_, ⟨by dsimp only; omega, g7 _ (Nat.le_refl _), g15 _ (Nat.le_refl _), ?_⟩⟩
+  · constructor <;> dsimp only
+    case answered =>
+      intro w hw hne hsn hor
+      have : w ≠ s.nextW := fun e => hne (by rw [e])
+      exact g6 w (by omega) (by simp) hsn hor
+    all_goals grind
+  · intro h c hc hw
+    have := g17 h c _ hc hw; omega
+
+theorem good_handle (s : State) (h : Hash) (w : Nat) (sc : Bool) (gb : GoodE (some w) s) (fb : FreshW s w)
+    (hsc : s.pure = true → sc = s.cached h) : Good (handleReq true s h w sc) := by
+  unfold handleReq
+  rcases Bool.eq_false_or_eq_true s.stopped with hs | hs
+  · rw [if_pos hs]
+    exact good_answer s w ⟨.stopped, s.cached h⟩ gb fb (fun _ hr => by cases hr)
+  · rw [if_neg (by simp [hs])]
+    cases hc : s.ctrl h with
+    | none =>
+      dsimp only
+      exact good_addFor _ _ h _ gb fb hs hc (fun hp hx => by rw [← hsc hp]; exact hx)
+    | some c =>
+      dsimp only
+      by_cases hev : (c.complete && !sc) = true
+      · rw [if_pos hev]
+        -- the eviction branch: only in schedules that are not pure
+        have hnp : s.pure = false := by
+          rcases Bool.eq_false_or_eq_true s.pure with hp | hp
+          · simp only [Bool.and_eq_true, Bool.not_eq_true'] at hev
+            have := gb.complete_cached hp h c hc hev.1
+            rw [hsc hp, this] at hev; simp at hev
+          · exact hp
+        rw [removeTorrent_eq]
+        have gr := good_remove (some w) s h c .removed (s.cached h) gb hs hc
+          (fun _ hr => by cases hr) (!c.complete) (fun hcc => by simp [hcc])
+        refine good_addFor _ _ h sc gr ?_ (by cases c.complete <;> simp [setCtrl, setCached, setDl, hs]) (by simp [setCtrl]) (fun hp _ => ?_)
+        · obtain ⟨f1, f2, f3, f4⟩ := fb
+          refine ⟨?_, ?_, ?_, ?_⟩
+          · cases c.complete <;> simpa [setCtrl, setCached, setDl] using f1
+          · have hnot : w ∉ c.waiters := f4 h c hc
+            cases c.complete <;> simp [setCtrl, setCached, setDl, sendTo_not_mem _ _ _ _ hnot] <;> exact f2
+          · cases c.complete <;> simpa [setCtrl, setCached, setDl] using f3
+          · intro h0 c0 hc0
+            have : (if h0 = h then none else s.ctrl h0) = some c0 := by
+              cases hcc : c.complete <;> simpa [setCtrl, setCached, setDl, hcc] using hc0
+            by_cases e0 : h0 = h
+            · simp [e0] at this
+            · simp only [e0, if_false] at this; exact f4 h0 c0 this
+        · have : s.pure = true := by cases hcc : c.complete <;> simpa [setCtrl, setCached, setDl, hcc] using hp
+          rw [hnp] at this; cases this
+      · rw [if_neg hev]
+        rcases Bool.eq_false_or_eq_true c.complete with hcc | hcc
+        · rw [if_pos hcc]
+          exact good_answer s w ⟨.ok, s.cached h⟩ gb fb (fun hp _ => gb.complete_cached hp h c hc hcc)
+        · rw [if_neg (by simp [hcc])]
+          exact good_join _ _ h c gb fb hs hc hcc
+
+theorem good_request (s : State) (h : Hash) (g : Good s) : Good (request true s h) := by
+  obtain ⟨gb, fb⟩ := goodE_bump s g
+  exact good_handle _ h _ _ (goodE_setDl _ h _ gb) (freshW_setDl _ h _ _ fb) (fun _ => rfl)
+
+theorem good_create (s : State) (h : Hash) (g : Good s) : Good { create s h with pure := false } := by
+  obtain ⟨gb0, fb0⟩ := goodE_bump s g
+  have gb := goodE_setDl _ h (s.dl h || !s.cached h) gb0
+  have fb := freshW_setDl _ h (s.dl h || !s.cached h) _ fb0
+  unfold create
+  dsimp only
+  split
+  · have := good_answer _ _ ⟨.stopped, s.cached h⟩ gb fb (fun _ hr => by cases hr)
+    obtain ⟨g1, g2, g3, g4, g5, g6, g7, g8, g9, g10, g11, g12, g13, g14, g15, g16, g17⟩ := this
+    constructor <;> (try assumption)
+    · intro hp; cases hp
+    · intro hp; cases hp
+    · intro hp; cases hp
+  · obtain ⟨g1, g2, g3, g4, g5, g6, g7, g8, g9, g10, g11, g12, g13, g14, g15, g16, g17⟩ := gb
+    obtain ⟨f1, f2, f3, f4⟩ := fb
+    constructor <;> dsimp only
+    case answered =>
+      intro w hw _ hsn hor
+      by_cases e : w = s.nextW
+      · simp [e] at hsn
+      · simp only [e, if_false] at hsn
+        exact g6 w hw (by simp; exact e) hsn hor
+    case complete_cached => intro hp; cases hp
+    case ok_cached => intro hp; cases hp
+    case snap_pure => intro hp; cases hp
+    case snap_fresh =>
+      intro w x hx
+      by_cases e : w = s.nextW
+      · subst e; exact ⟨f1, f2, f4⟩
+      · simp only [e, if_false] at hx; exact g14 w x hx
+    case snap_future =>
+      intro w hw
+      have e : ¬ w = s.nextW := by omega
+      simp only [e, if_false]; exact g15 w (by omega)
+    all_goals assumption
+
+theorem good_applyReq (s : State) (w : Nat) (g : Good s) : Good (applyReq true s w) := by
+  unfold applyReq
+  cases hsn : s.snap w with
+  | none => exact g
+  | some x =>
+    obtain ⟨h, sc⟩ := x
+    dsimp only
+    have hnp : s.pure = false := by
+      rcases Bool.eq_false_or_eq_true s.pure with hp | hp
+      · have := g.snap_pure hp w; rw [hsn] at this; cases this
+      · exact hp
+    obtain ⟨q1, q2, q3⟩ := g.snap_fresh w (h, sc) hsn
+    -- taking the event off the queue: the request is now in the hands of the event
+    have gb : GoodE (some w) { s with snap := fun k => if k = w then none else s.snap k } := by
+      obtain ⟨g1, g2, g3, g4, g5, g6, g7, g8, g9, g10, g11, g12, g13, g14, g15, g16, g17⟩ := g
+      constructor <;> dsimp only
+      case answered =>
+        intro w' hw' hne hsn' hor
+        have e : ¬ w' = w := fun e => hne (by rw [e])
+        simp only [e, if_false] at hsn'
+        exact g6 w' hw' (by simp) hsn' hor
+      case snap_fresh =>
+        intro w' x hx
+        by_cases e : w' = w
+        · simp [e] at hx
+        · simp only [e, if_false] at hx; exact g14 w' x hx
+      case snap_future =>
+        intro w' hw'
+        by_cases e : w' = w
+        · simp [e]
+        · simp only [e, if_false]; exact g15 w' hw'
+      case snap_pure => intro hp; rw [hnp] at hp; cases hp
+      all_goals assumption
+    have fb : FreshW { s with snap := fun k => if k = w then none else s.snap k } w :=
+      ⟨q1, q2, by simp, q3⟩
+    exact good_handle _ h w sc gb fb (fun hp => by rw [hnp] at hp; cases hp)
+
+theorem good_incoming (s : State) (h : Hash) (g : Good s) : Good (incoming s h) := by
+  unfold incoming
+  rcases Bool.eq_false_or_eq_true s.stopped with hs | hs
+  · rw [if_pos hs]; exact g
+  · rw [if_neg (by simp [hs])]
+    cases hc : s.ctrl h with
+    | some c => exact goodE_setDl s h _ g
+    | none =>
+      dsimp only
+      have hcc := g.complete_cached
+      obtain ⟨g1, g2, g3, g4, g5, g6, g7, g8, g9, g10, g11, g12, g13, g14, g15, g16, g17⟩ := g
+      cases hca : s.cached h
+      · simp only [Bool.false_eq_true, if_false]
+        constructor <;> (try simp only [setCtrl_ctrl]) <;> (try dsimp only [setCtrl])
+        case answered =>
+          intro w hw hne hsn hor
+          apply g6 w hw hne hsn
+          rcases hor with hor | hor
+          · exact Or.inl hor
+          · right
+            intro h0 c0 hc0
+            have e0 : ¬ h0 = h := by intro e0; subst e0; simp [hc] at hc0
+            exact hor h0 c0 (by simp [e0, hc0])
+        all_goals grind
+      · simp only [if_true]
+        constructor <;> (try simp only [setCtrl_ctrl]) <;> (try dsimp only [setCtrl])
+        case answered =>
+          intro w hw hne hsn hor
+          apply g6 w hw hne hsn
+          rcases hor with hor | hor
+          · exact Or.inl hor
+          · right
+            intro h0 c0 hc0
+            have e0 : ¬ h0 = h := by intro e0; subst e0; simp [hc] at hc0
+            exact hor h0 c0 (by simp [e0, hc0])
+        all_goals grind
+
+theorem good_evict (s : State) (h : Hash) (g : Good s) : Good (evict s h) := by
+  unfold evict
+  split
+  · obtain ⟨g1, g2, g3, g4, g5, g6, g7, g8, g9, g10, g11, g12, g13, g14, g15, g16, g17⟩ := g
+    constructor <;> (try dsimp only [setCached]) <;> (try assumption)
+    · intro hp; cases hp
+    · intro hp; cases hp
+    · intro hp; cases hp
+  · exact g
 
 -- ------------------------------------------------------------------ every schedule
 
 theorem good_step (s : State) (a : Action) (g : Good s) : Good (step true s a) := by
   cases a with
   | request h => exact good_request s h g
+  | create h => exact good_create s h g
+  | apply w => exact good_applyReq s w g
+  | incoming h => exact good_incoming s h g
+  | evict h => exact good_evict s h g
   | requestMissing => exact good_requestMissing s g
   | finish h => exact good_finish s h g
   | notice h gn => exact good_notice s h gn g
@@ -508,41 +762,75 @@ def Tracked (s : State) (w : Nat) : Prop := ∃ h c, s.ctrl h = some c ∧ w ∈
 
 theorem good_at_most_once (s : State) (g : Good s) (w : Nat) : (s.results w).length ≤ 1 := by
   by_cases hw : w < s.nextW
-  · rcases Bool.eq_false_or_eq_true s.stopped with hs | hs
-    · rw [g.answered w hw (Or.inl hs)]; exact Nat.le_refl _
-    · by_cases ht : Tracked s w
-      · obtain ⟨h, c, hc, hwc⟩ := ht
-        rw [(g.w_fresh hs h c w hc hwc).2]; simp
-      · rw [g.answered w hw (Or.inr (fun h c hc hwc => ht ⟨h, c, hc, hwc⟩))]; exact Nat.le_refl _
+  · cases hsn : s.snap w with
+    | some x => rw [(g.snap_fresh w x hsn).2.1]; simp
+    | none =>
+      rcases Bool.eq_false_or_eq_true s.stopped with hs | hs
+      · rw [g.answered w hw (by simp) hsn (Or.inl hs)]; exact Nat.le_refl _
+      · by_cases ht : Tracked s w
+        · obtain ⟨h, c, hc, hwc⟩ := ht
+          rw [(g.w_fresh hs h c w hc hwc).2]; simp
+        · rw [g.answered w hw (by simp) hsn (Or.inr (fun h c hc hwc => ht ⟨h, c, hc, hwc⟩))]; exact Nat.le_refl _
   · rw [g.future w (by omega)]; simp
 
+/-- a request has its one result, or it is still registered with a live control of a running scheduler, or
+its event has not been applied yet -/
 theorem good_never_lost (s : State) (g : Good s) (w : Nat) (hw : w < s.nextW) :
-    (s.results w).length = 1 ∨ (s.stopped = false ∧ s.results w = [] ∧ Tracked s w) := by
-  rcases Bool.eq_false_or_eq_true s.stopped with hs | hs
-  · exact Or.inl (g.answered w hw (Or.inl hs))
-  · by_cases ht : Tracked s w
-    · obtain ⟨h, c, hc, hwc⟩ := ht
-      exact Or.inr ⟨hs, (g.w_fresh hs h c w hc hwc).2, ⟨h, c, hc, hwc⟩⟩
-    · exact Or.inl (g.answered w hw (Or.inr (fun h c hc hwc => ht ⟨h, c, hc, hwc⟩)))
+    (s.results w).length = 1 ∨
+    (s.results w = [] ∧ ((s.stopped = false ∧ Tracked s w) ∨ (s.snap w).isSome = true)) := by
+  cases hsn : s.snap w with
+  | some x => exact Or.inr ⟨(g.snap_fresh w x hsn).2.1, Or.inr rfl⟩
+  | none =>
+    rcases Bool.eq_false_or_eq_true s.stopped with hs | hs
+    · exact Or.inl (g.answered w hw (by simp) hsn (Or.inl hs))
+    · by_cases ht : Tracked s w
+      · obtain ⟨h, c, hc, hwc⟩ := ht
+        exact Or.inr ⟨(g.w_fresh hs h c w hc hwc).2, Or.inl ⟨hs, ⟨h, c, hc, hwc⟩⟩⟩
+      · exact Or.inl (g.answered w hw (by simp) hsn (Or.inr (fun h c hc hwc => ht ⟨h, c, hc, hwc⟩)))
 
 -- ------------------------------------------------------------------ progress
 
+theorem addFor_nextW (s : State) (h : Hash) (w : Nat) (sc : Bool) : (addFor s h w sc).nextW = s.nextW := by
+  unfold addFor; cases sc <;> simp [setCtrl]
+
+theorem removeTorrent_nextW (rep : Bool) (s : State) (h : Hash) (c : Ctrl) (r : Res) (ca : Bool) :
+    (removeTorrent rep s h c r ca).nextW = s.nextW := by
+  unfold removeTorrent; split <;> split <;> simp [setCtrl, setCached, setDl]
+
+theorem handleReq_nextW (rep : Bool) (s : State) (h : Hash) (w : Nat) (sc : Bool) :
+    (handleReq rep s h w sc).nextW = s.nextW := by
+  unfold handleReq
+  split
+  · rfl
+  · split
+    · split
+      · rw [addFor_nextW, removeTorrent_nextW]
+      · split <;> simp [setCtrl]
+    · rw [addFor_nextW]
+
 theorem nextW_mono (rep : Bool) (s : State) (a : Action) : s.nextW ≤ (step rep s a).nextW := by
   cases a <;> simp only [step]
-  case request h =>
-    simp only [request]
+  case request h => simp [request, handleReq_nextW, setDl]
+  case create h => simp only [create]; split <;> simp [setDl]
+  case apply w =>
+    simp only [applyReq]; split
+    · exact Nat.le_refl _
+    · rw [handleReq_nextW]; exact Nat.le_refl _
+  case incoming h =>
+    simp only [incoming]
     split
-    · simp
+    · exact Nat.le_refl _
     · split
+      · simp [setDl]
       · split <;> simp [setCtrl]
-      · split <;> simp [setCtrl]
+  case evict h => simp only [evict]; split <;> simp [setCached]
   case requestMissing => simp [requestMissing]
   case finish h =>
     simp only [finish]
     split
     · split
       · simp
-      · split <;> simp [setCtrl, setCached]
+      · split <;> simp [setCtrl, setCached, setDl]
     · simp
   case notice h g =>
     simp only [notice]
@@ -556,45 +844,53 @@ theorem nextW_mono (rep : Bool) (s : State) (a : Action) : s.nextW ≤ (step rep
         · simp
     · simp
   case timeout h =>
-    simp only [timeout, removeTorrent]
+    simp only [timeout]
     split
     · simp
     · split
-      · split <;> split <;> simp [setCtrl, setCached]
+      · rw [removeTorrent_nextW]; exact Nat.le_refl _
       · simp
   case rm h =>
-    simp only [rm, removeTorrent]
+    simp only [rm]
     split
     · simp
     · split
-      · split <;> split <;> simp [setCtrl, setCached]
-      · simp [setCached]
+      · simp [setCached, setDl, removeTorrent_nextW]
+      · simp [setCached, setDl]
   case shutdown =>
     simp only [shutdown]; split <;> simp
 
 /-- after an action that leaves `w` unregistered (or stops the scheduler), `w` has its one result -/
 theorem answered_after (s : State) (a : Action) (g : Good s) (w : Nat) (hw : w < s.nextW)
+    (hsn : (step true s a).snap w = none)
     (h : (step true s a).stopped = true ∨ ¬ Tracked (step true s a) w) :
     ((step true s a).results w).length = 1 := by
   have g' := good_step s a g
   have hw' : w < (step true s a).nextW := Nat.lt_of_lt_of_le hw (nextW_mono true s a)
   rcases h with h | h
-  · exact g'.answered w hw' (Or.inl h)
-  · exact g'.answered w hw' (Or.inr (fun h0 c hc hwc => h ⟨h0, c, hc, hwc⟩))
+  · exact g'.answered w hw' (by simp) hsn (Or.inl h)
+  · exact g'.answered w hw' (by simp) hsn (Or.inr (fun h0 c hc hwc => h ⟨h0, c, hc, hwc⟩))
+
+/-- a registered waiter has no pending event of its own -/
+theorem tracked_no_snap (s : State) (g : Good s) (h : Hash) (c : Ctrl) (w : Nat) (hc : s.ctrl h = some c)
+    (hw : w ∈ c.waiters) : s.snap w = none := by
+  cases hx : s.snap w with
+  | none => rfl
+  | some x => exact absurd hw ((g.snap_fresh w x hx).2.2 h c hc)
 
 theorem timeout_ctrl (s : State) (h : Hash) (c : Ctrl) (hs : s.stopped = false) (hc : s.ctrl h = some c) (k : Hash) :
     (timeout true s h).ctrl k = if k = h then none else s.ctrl k := by
   unfold timeout
   simp only [hs, Bool.false_eq_true, if_false, hc]
   rw [removeTorrent_eq]
-  cases c.complete <;> simp [setCtrl, setCached]
+  cases c.complete <;> simp [setCtrl, setCached, setDl]
 
 theorem rm_ctrl (s : State) (h : Hash) (c : Ctrl) (hs : s.stopped = false) (hc : s.ctrl h = some c) (k : Hash) :
     (rm true s h).ctrl k = if k = h then none else s.ctrl k := by
   unfold rm
   simp only [hs, Bool.false_eq_true, if_false, hc]
   rw [removeTorrent_eq]
-  cases c.complete <;> simp [setCtrl, setCached]
+  cases c.complete <;> simp [setCtrl, setCached, setDl]
 
 theorem notice_ctrl (s : State) (h : Hash) (c : Ctrl) (hs : s.stopped = false) (hc : s.ctrl h = some c)
     (hm : (h, c.gen) ∈ s.notices) (k : Hash) :
